@@ -736,6 +736,22 @@ def check_types(
             )
 
     sig = inspect.signature(wrapped)
+    star_args_name = next(
+        (
+            name
+            for name, param in sig.parameters.items()
+            if param.kind is inspect.Parameter.VAR_POSITIONAL
+        ),
+        None,
+    )
+    star_kwargs_name = next(
+        (
+            name
+            for name, param in sig.parameters.items()
+            if param.kind is inspect.Parameter.VAR_KEYWORD
+        ),
+        None,
+    )
 
     def validate_args(
         named_arguments: Dict[str, Any], arguments: Tuple[Any, ...]
@@ -751,12 +767,10 @@ def check_types(
         :return: List of validated function arguments.
         """
 
-        # Check for an '*args'-like argument
-        if len(arguments) > len(named_arguments):
-            (
-                star_args_name,
-                star_args_values,
-            ) = named_arguments.popitem()  # *args is the last item
+        # Check for an '*args'-like argument: it is recognised by the kind of
+        # the parameter (comparing lengths misses a single star value)
+        if star_args_name in named_arguments:
+            star_args_values = named_arguments.pop(star_args_name)
 
             star_args_tuple = (
                 _check_arg(star_args_name, arg_value)
@@ -791,12 +805,10 @@ def check_types(
         :return: list of validated function keyword arguments.
         """
 
-        # Check for an '**kwargs'-like argument
-        if kwargs.keys() != named_kwargs.keys():
-            (
-                star_kwargs_name,
-                star_kwargs_dict,
-            ) = named_kwargs.popitem()  # **kwargs is the last item
+        # Check for an '**kwargs'-like argument, recognised by the kind of the
+        # parameter
+        if star_kwargs_name in named_kwargs:
+            star_kwargs_dict = named_kwargs.pop(star_kwargs_name)
 
             explicit_kwargs_dict = {
                 arg_name: _check_arg(arg_name, arg_value)
